@@ -76,7 +76,7 @@ func (app *AppData) Pack(buffer []byte) {
 	}
 
 	buffer[2] = 0
-	copy(buffer[2:], app.Data)
+	copy(buffer[2:2+dataLength], app.Data)
 
 	buffer[2] &= 63
 	buffer[2] |= byte(app.Command&3) << 6
